@@ -1,4 +1,5 @@
 #include "core.h"
+#include "bz.h"
 
 #include <errno.h>
 #include <fcntl.h>
@@ -63,6 +64,7 @@ std::string RunCfg::brief() const {
   snprintf(b, sizeof b, " | sched=%s%s seed=%llu param=%u spurious=%u preempt=%u devs=%zu | in=%d/frag%d out=%d/frag%d", sim::policy_name(sched.policy), sched.explicit_ ? "(explicit)" : "",
            (unsigned long long)sched.seed, sched.param, sched.spurious, sched.preempt, sched.devs.size(), in_kind, in_frag.mode, out_kind, out_frag.mode);
   r += b;
+  if (operand2) r += " | data as second FILE operand";
   if (sched.stall_k) { snprintf(b, sizeof b, " | stall %s#%u for %u decisions", sched.stall_task.c_str(), sched.stall_k, sched.stall_len); r += b; }
   if (in_granul || out_granul || copy_granul) { snprintf(b, sizeof b, " | granul in=%zu out=%zu copy=%zu", in_granul, out_granul, copy_granul); r += b; }
   for (auto &f : faults) { snprintf(b, sizeof b, " | fault %s#%d role%d errno=%d partial=%lld", sim::call_name(f.call), f.k, f.role, f.err, (long long)f.partial); r += b; }
@@ -86,7 +88,26 @@ sim::World make_world(const std::vector<FileSpec> &files) {
   return w;
 }
 
-sim::Result exec(const RunCfg &cfg, const Bytes &stdin_data, const std::vector<FileSpec> &files, Ctx &ctx, bool trace) {
+sim::Result exec(const RunCfg &cfg0, const Bytes &stdin_data0, const std::vector<FileSpec> &files0, Ctx &ctx, bool trace) {
+  // operand2: rewrite the filter run into a two-operand invocation (see core.h)
+  bool op2 = cfg0.operand2 && files0.empty();
+  RunCfg cfg2; std::vector<FileSpec> files2; Bytes nodata; std::string outname;
+  if (op2) {
+    cfg2 = cfg0;
+    bool dec = false;
+    for (auto &a : cfg2.argv) if (a == "-d" || a == "--decompress" || a == "-t") dec = true;
+    static const Bytes first_plain = "the first operand of this invocation is a small valid file\n";
+    static const Bytes first_bz = bz::libbz2_encode(first_plain, 3);
+    FileSpec g, f;
+    g.name = dec ? "g.bz2" : "g"; g.data = dec ? first_bz : first_plain;
+    f.name = dec ? "f.bz2" : "f"; f.data = stdin_data0;
+    outname = dec ? "f" : "f.bz2";
+    files2.push_back(g); files2.push_back(f);
+    cfg2.argv.push_back(g.name); cfg2.argv.push_back(f.name);
+  }
+  const RunCfg &cfg = op2 ? cfg2 : cfg0;
+  const Bytes &stdin_data = op2 ? nodata : stdin_data0;
+  const std::vector<FileSpec> &files = op2 ? files2 : files0;
   sim::Plan p;
   p.argv.push_back(cfg.prog);
   for (auto &a : cfg.argv) p.argv.push_back(a);
@@ -99,6 +120,7 @@ sim::Result exec(const RunCfg &cfg, const Bytes &stdin_data, const std::vector<F
   p.faults = cfg.faults; p.sigs = cfg.sigs; p.sched = cfg.sched; p.junk = cfg.junk; p.step_budget = cfg.step_budget;
   p.trace = trace || ctx.verbose;
   sim::Result r = sim::run(p);
+  if (op2) { const sim::Inode *o = r.world.lookup(outname); r.out = o ? o->data : Bytes(); if (ctx.st) ctx.st->inc("kind.data-as-second-operand"); }
   if (ctx.st) ctx.st->absorb(cfg, r);
   ctx.hash = sim::fnv(ctx.hash, r.hash);
   if (ctx.record) ctx.recorded.push_back(r.devs);
@@ -257,6 +279,7 @@ std::string case_to_text(const Case &c, const Verdict &v, uint64_t hash) {
     put_frag(o, "infrag", r.in_frag); put_frag(o, "outfrag", r.out_frag); put_frag(o, "filefrag", r.file_frag);
     for (auto &f : r.faults) o << " fault " << f.call << " " << f.role << " " << f.k << " " << f.err << " " << f.partial << "\n";
     for (auto &e : r.sigs) o << " sig " << e.step << " " << e.sig << "\n";
+    if (r.operand2) o << " operand2 1\n";
     if (r.sched.stall_k) o << " stall " << r.sched.stall_task << " " << r.sched.stall_k << " " << r.sched.stall_len << "\n";
     o << " sched " << r.sched.policy << " " << r.sched.seed << " " << r.sched.param << " " << r.sched.spurious << " " << (int)r.sched.explicit_ << " " << r.sched.preempt << "\n";
     if (!r.sched.devs.empty()) { o << " devs"; for (auto &d : r.sched.devs) o << " " << d.first << ":" << d.second; o << "\n"; }
@@ -302,6 +325,7 @@ bool case_from_text(const std::string &text, Case *c, Verdict *v, uint64_t *hash
       else if (k == "filefrag") is >> cur->file_frag.mode >> cur->file_frag.param;
       else if (k == "fault") { sim::Fault f; is >> f.call >> f.role >> f.k >> f.err >> f.partial; cur->faults.push_back(f); }
       else if (k == "sig") { sim::SigEvent e; is >> e.step >> e.sig; cur->sigs.push_back(e); }
+      else if (k == "operand2") { int v = 0; is >> v; cur->operand2 = v != 0; }
       else if (k == "stall") is >> cur->sched.stall_task >> cur->sched.stall_k >> cur->sched.stall_len;
       else if (k == "sched") { int ex; is >> cur->sched.policy >> cur->sched.seed >> cur->sched.param >> cur->sched.spurious >> ex; cur->sched.explicit_ = ex; uint32_t pr = 0; if (is >> pr) cur->sched.preempt = pr; }
       else if (k == "devs") { std::string t; while (is >> t) { size_t c2 = t.find(':'); cur->sched.devs.push_back({(uint32_t)strtoul(t.c_str(), 0, 10), (uint32_t)strtoul(t.c_str() + c2 + 1, 0, 10)}); } }
@@ -349,6 +373,7 @@ Case shrink(const Driver &d, const Case &c0, const Verdict &v0, int max_evals, i
     for (size_t k = best.runs[r].faults.size(); k-- > 0;) { Case cand = best; cand.runs[r].faults.erase(cand.runs[r].faults.begin() + k); try_case(cand); }
     for (size_t k = best.runs[r].sigs.size(); k-- > 0;) { Case cand = best; cand.runs[r].sigs.erase(cand.runs[r].sigs.begin() + k); try_case(cand); }
     if (best.runs[r].sched.spurious) { Case cand = best; cand.runs[r].sched.spurious = 0; if (cand.runs[r].sched.explicit_) cand.runs[r].sched.devs.clear(); try_case(cand); }
+    if (best.runs[r].operand2) { Case cand = best; cand.runs[r].operand2 = false; try_case(cand); }
     if (best.runs[r].sched.stall_k && !best.runs[r].sched.explicit_) { Case cand = best; cand.runs[r].sched.stall_k = 0; try_case(cand); }
     if (best.runs[r].sched.preempt && !best.runs[r].sched.explicit_) { Case cand = best; cand.runs[r].sched.preempt = 0; try_case(cand); }
     if (best.runs[r].in_granul || best.runs[r].out_granul || best.runs[r].copy_granul) { Case cand = best; cand.runs[r].in_granul = cand.runs[r].out_granul = cand.runs[r].copy_granul = 0; try_case(cand); }
